@@ -979,3 +979,184 @@ func (c *Ctx) writerScratchConfined() {
 			"the scratch buffer the packet writer assembles wrapping packets in ("+f+") is also accessed by "+joinStr(others, ", ")+", outside the write mutex: a packet copied there by the processor is overwritten by the next wrapped write to this connection (or a half-assembled packet is read as input)")
 	}
 }
+
+// headerLengthAfterRemainingLength: T3. The size of the fixed header depends on the remaining length stored in it
+// (1-4 length bytes). Encode of a changed message compares the buffer with header length + body length; that header
+// length is current only if the remaining length was stored first - by Len(), which the callers run to size the
+// buffer and which stores it as a side effect, or by Encode itself before it reads the header length. One of the two
+// must hold for every message type: a Len() made free of side effects (a data-race fix) with the encoders unchanged
+// makes Encode refuse a buffer of exactly Len() bytes whenever the remaining length crossed a length-byte boundary
+// since the last encode.
+func (c *Ctx) headerLengthAfterRemainingLength() {
+	n := 0
+	for _, enc := range c.P.Funcs {
+		if enc.Pkg == nil || enc.Pkg.Pkg.Path() != pkgMessage || enc.Name() != "Encode" || enc.Signature.Recv() == nil || enc.Blocks == nil {
+			continue
+		}
+		typ := recvNamed(enc)
+		lenFn := c.P.Func("message", typ, "Len")
+		if lenFn == nil {
+			continue
+		}
+		var hdrReads, sets []ssa.CallInstruction
+		for _, call := range ir.Calls(enc) {
+			switch {
+			case ir.IsMethod(call.Common(), pkgMessage, "header", "msglen"):
+				hdrReads = append(hdrReads, call)
+			case ir.IsMethod(call.Common(), pkgMessage, "header", "SetRemainingLength"):
+				sets = append(sets, call)
+			}
+		}
+		if len(hdrReads) == 0 {
+			continue
+		}
+		n++
+		lenSets := false
+		for f := range map[*ssa.Function]bool{lenFn: true} {
+			if c.reaches(f, c.P.Func("message", "header", "SetRemainingLength"), 2) {
+				lenSets = true
+			}
+		}
+		encOrders := true
+		for _, h := range hdrReads {
+			dom := false
+			for _, s := range sets {
+				if ir.Before(s, h) {
+					dom = true
+				}
+			}
+			if !dom {
+				encOrders = false
+			}
+		}
+		c.R.Check(lenSets || encOrders, "T3-dirty-discipline", typ+".Encode:header-length-of-the-current-remaining-length", c.P.Pos(enc.Pos()),
+			"Len() stores the remaining length before the callers size the buffer (or Encode stores it before reading the header length)",
+			"neither does "+typ+".Len() store the remaining length nor does Encode store it before it reads the fixed-header length: the size test of Encode uses the header length of the previous encode - after a change that moves the remaining length across 127 / 16383 / 2097151 a buffer of exactly Len() bytes is refused (or a too small one accepted)")
+	}
+	c.R.Count("encoders reading the fixed-header length", n)
+}
+
+const ruleL10 = "L10-abandoned-result-channel"
+
+// noAbandonedResultChannel: L10. A goroutine started to do something "with a timeout" reports through a channel its
+// starter receives from inside a select that has another way out (a context, a timer). When the starter takes the
+// other way, nobody receives any more: on an unbuffered channel the goroutine's send blocks for ever - one goroutine
+// (and whatever it holds: the connection, buffers) leaked per attempt. Such a channel is made with room for the result.
+func (c *Ctx) noAbandonedResultChannel() {
+	c.R.Rule(ruleL10, "a channel on which a goroutine started by the same function sends, and from which that function receives inside a select with another case, is buffered: the send completes although the starter has left.")
+	n := 0
+	for _, fn := range c.P.Funcs {
+		if fn.Blocks == nil {
+			continue
+		}
+		k := 0
+		for _, b := range fn.Blocks {
+			for _, in := range b.Instrs {
+				mk, ok := in.(*ssa.MakeChan)
+				if !ok {
+					continue
+				}
+				unbuffered := false
+				if sz, isK := mk.Size.(*ssa.Const); isK && sz.Value != nil && sz.Value.ExactString() == "0" {
+					unbuffered = true
+				}
+				// received by fn in a select with another case?
+				inSelect := false
+				for _, b2 := range fn.Blocks {
+					for _, in2 := range b2.Instrs {
+						sel, ok := in2.(*ssa.Select)
+						if !ok || len(sel.States) < 2 {
+							continue
+						}
+						for _, st := range sel.States {
+							if st.Dir == types.RecvOnly && chanIs(st.Chan, mk) {
+								inSelect = true
+							}
+						}
+					}
+				}
+				if !inSelect {
+					continue
+				}
+				// sent on by a goroutine (closure) this function starts
+				sentByGo := false
+				for _, an := range fn.AnonFuncs {
+					started := false
+					for _, site := range c.P.Callers(an) {
+						if _, isGo := site.(*ssa.Go); isGo {
+							started = true
+						}
+					}
+					for _, b2 := range fn.Blocks {
+						for _, in2 := range b2.Instrs {
+							if g, isGo := in2.(*ssa.Go); isGo {
+								if mc, isMC := g.Common().Value.(*ssa.MakeClosure); isMC && mc.Fn == ssa.Value(an) {
+									started = true
+								}
+							}
+						}
+					}
+					if !started {
+						continue
+					}
+					for _, b2 := range an.Blocks {
+						for _, in2 := range b2.Instrs {
+							if snd, isS := in2.(*ssa.Send); isS {
+								chv := ir.SeeThrough(snd.Chan)
+								if u, isU := chv.(*ssa.UnOp); isU && u.Op == token.MUL {
+									chv = u.X // the captured cell
+								}
+								if u, isU := snd.Chan.(*ssa.UnOp); isU && u.Op == token.MUL {
+									if _, isFV := u.X.(*ssa.FreeVar); isFV {
+										chv = u.X
+									}
+								}
+								if fv, isFV := chv.(*ssa.FreeVar); isFV {
+									// which binding of the closure is this free variable?
+									for _, b3 := range fn.Blocks {
+										for _, in3 := range b3.Instrs {
+											if mc, isMC := in3.(*ssa.MakeClosure); isMC && mc.Fn == ssa.Value(an) {
+												for i, fvv := range an.FreeVars {
+													if fvv == fv && i < len(mc.Bindings) && chanIs(mc.Bindings[i], mk) {
+														sentByGo = true
+													}
+												}
+											}
+										}
+									}
+								}
+							}
+						}
+					}
+				}
+				if !sentByGo {
+					continue
+				}
+				n++
+				k++
+				c.R.Check(!unbuffered, ruleL10, fmt.Sprintf("%s:result-channel#%d", fname(fn), k), c.P.InstrPos(mk),
+					"the result channel has room for the result",
+					"the goroutine started here reports on an unbuffered channel that "+fname(fn)+" receives from in a select with another way out: when that other case wins (time-out, cancelled context) nobody receives and the goroutine blocks in its send for ever - it and what it holds are leaked on every such attempt")
+			}
+		}
+	}
+	c.R.Count("result channels of goroutines received in a select", n)
+}
+
+// chanIs: v is the channel made by mk (directly, or loaded from the local cell it was stored into).
+func chanIs(v ssa.Value, mk *ssa.MakeChan) bool {
+	v = ir.SeeThrough(v)
+	if v == ssa.Value(mk) {
+		return true
+	}
+	// a captured local: the closure binds the cell, the parent loads from it
+	if al, ok := v.(*ssa.Alloc); ok {
+		if s := ir.SingleStore(al); s != nil && ir.SeeThrough(s) == ssa.Value(mk) {
+			return true
+		}
+	}
+	if u, ok := v.(*ssa.UnOp); ok && u.Op == token.MUL {
+		return chanIs(u.X, mk)
+	}
+	return false
+}
